@@ -21,7 +21,7 @@ claimed = {
    ref="4/C03"),
  "C04": dict(
    text="Proof that applyTarget implements the documented move table for every target and every stack (moveTable predicate: named node, '_', '^', '.', '>', '<' incl. the failing cases), that the State methods and Rewind (loop invariant) do what the table needs, and that runMove, runInCmp and runCatch change the position only through one applyTarget with the instruction's own target.",
-   note="Regex meaning of node/control targets assumed (axioms); premises: no move into the current node. ExecPath/SizeIdx writers outside State methods are not scanned yet. Trusted: vcgo translation, solvers.",
+   note="Regex meaning of node/control targets assumed (axioms); premises: no move into the current node. A module-wide audit (fieldwriters) shows that only the State methods store to ExecPath/SizeIdx (stores by reflection in the cbor decoder are not visible to it). Trusted: vcgo translation, solvers.",
    ref="4/C04"),
  "C05": dict(
    text="Proof over runLoad/runReload/runMap/refresh/Page.Map/Vm.Reset and the cache contracts: LOAD calls the external function at most once and not at all while the symbol is visible (ghost call counter), stores under uint16(size) at the current scope, a rejected value is neither stored nor mapped; RELOAD calls exactly once and maps the stored value; every successful MOVE/INCMP move leaves the mapping table empty; at every resume the renderer is reset (call-site assertion in Run).",
